@@ -1,6 +1,7 @@
 """C16 — CLI options and input formats mean what the help text says."""
 import re
 
+import absint
 import facts
 import q
 from facts import norm, short, strip_refs, is_const
@@ -58,7 +59,7 @@ def run(ctx):
             ctx.verdict(snake(v) == short(p), rule, '%s:%s' % (rule, v), 'Discount::X selects RegretParams::x (same name)', f.where(bi), 'Discount::%s -> RegretParams::%s' % (v, short(p)),
                         breaks='-d selects another preset than it names')
     nvar = len(b.adts.get('Discount', []))
-    if n < 5 or n != nvar:
+    if n < 5 or n % nvar:    # a multiple: the table also lives, inlined, in its caller
         ctx.anchor_lost(rule, 'Discount -> RegretParams preset arms', 'found %d arms for %d variants' % (n, nvar))
     if m is None:
         return
@@ -74,36 +75,56 @@ def run(ctx):
     if n < 3:
         ctx.anchor_lost(rule, 'main: Method -> SolveMethod arms', 'found %d of 3' % n)
     rule = 'C16.table-format'
-    n = 0
-    for bi, t, p in m.calls():
-        if short(p) != 'from_reader' or not any(p.startswith(x) for x in ('json::', 'gambit::', 'auto::')):
-            continue
-        n += 1
-        mod = p.split('::')[0]
-        cs = m.conds(bi)
-        fmt = [c for c in cs if c['kind'] == 'variant' and 'input_format' in facts.show(c['a'])]
-        ext = [(facts.show(c['a']), c['truth']) for c in cs if c['kind'] == 'bool' and q.is_call(strip_refs(c['a']), 'ends_with')]
-        var = fmt[-1]['variants'][0] if fmt and len(fmt[-1]['variants']) == 1 else '?'
-        stdin = any(c['kind'] == 'Eq' and c['truth'] is True and 'input' in facts.show(c['a']) for c in cs)
-        if var in ('Json', 'Gambit'):
-            ok = mod == var.lower() and not ext
-            why = 'explicit format, no extension test'
-        elif var == 'Auto':
-            pos = [e for e, tr in ext if tr is True]
-            if stdin:
-                ok = mod == 'auto' and not ext
-            elif pos:
-                want = 'json' if '.json' in pos[-1] else 'gambit' if '.efg' in pos[-1] else '?'
-                ok = mod == want
+    # decision table of the parser dispatch, extracted by path-sensitive abstract interpretation of main (helpers
+    # inlined): independent of how the dispatch is written (nested matches, guards, a resolve step, == on the enum)
+    class Dispatch(absint.Client):
+        def place(self, f, pl, bi, it):
+            if pl['ty'] == 'InputFormat':
+                return ('sym', 'fmt', 'InputFormat')
+            return None
+
+        def call(self, f, bi, t, args, it):
+            p = t['callee'].get('path') or ''
+            sp = short(p)
+            if sp in ('ends_with', 'eq', 'ne'):
+                e = f.call_expr(t, bi)
+                consts = [x[1] for a in e[2] for x in facts.walk(a) if x[0] == 'const' and isinstance(x[1], str)]
+                on_input = any(x[0] == 'field' and x[2] == 'input' for a in e[2] for x in facts.walk(a))
+                if sp == 'ends_with' and on_input and consts and consts[-1] in ('.json', '.efg'):
+                    return ('b', 'ext' + consts[-1])
+                if sp in ('eq', 'ne') and on_input and '-' in consts:
+                    return ('b', 'stdin') if sp == 'eq' else ('not', ('b', 'stdin'))
+            return None
+
+        def sink(self, f, bi, t, it):
+            if t['t'] == 'call':
+                p = t['callee'].get('path') or ''
+                if short(p) == 'from_reader' and p.split('::')[0] in ('json', 'gambit', 'auto'):
+                    return p.split('::')[0]
+                if short(p) == 'solve' and 'Game' in p:
+                    return 'no-parser'
+            return None
+    it = absint.run(m, Dispatch())
+    n = sum(1 for p_ in it.paths if p_.sink != 'no-parser')
+    if it.overflow or n == 0:
+        ctx.anchor_lost(rule, 'main: from_reader dispatch', 'paths explored: %d, overflow: %s' % (len(it.paths), it.overflow))
+    else:
+        keys = ['stdin', 'fmt', 'ext.json', 'ext.efg']
+        tab = absint.table(it.paths, keys, {'stdin': [True, False], 'fmt': ['Json', 'Gambit', 'Auto'], 'ext.json': [True, False], 'ext.efg': [True, False]})
+        for (stdin, fmt, ej, ee), (sinks, und) in sorted(tab.items(), key=str):
+            if ej and ee:
+                continue    # a name cannot end in both
+            want = {'Json': 'json', 'Gambit': 'gambit'}.get(fmt) or ('auto' if stdin else 'json' if ej else 'gambit' if ee else 'auto')
+            ext = 'json' if ej else 'efg' if ee else 'other'
+            key = '%s:%s:%s:%s' % (rule, 'stdin' if stdin else 'file', fmt, ext)
+            text = 'InputFormat::X selects x::from_reader; under Auto ".json" selects json, ".efg" gambit, otherwise (and always on stdin) content detection; explicit formats ignore the extension'
+            if sinks == {want}:
+                ctx.verdict(True, rule, key, text, m.where(0), '%s -> %s::from_reader on every path' % ((stdin, fmt, ext), want))
+            elif want in sinks and und:
+                ctx.anchor_lost(rule, 'main: dispatch for %s' % ((stdin, fmt, ext),), 'reaches %s through an unmodelled test' % sorted(sinks))
             else:
-                ok = mod == 'auto' and len(ext) == 2
-            why = 'Auto with extension tests %s' % [(e[-12:], tr) for e, tr in ext]
-        else:
-            ok, why = False, 'format guard not recognised'
-        ctx.verdict(ok, rule, '%s:%s:%s:%s' % (rule, 'stdin' if stdin else 'file', var, mod), 'InputFormat::X selects x::from_reader; under Auto ".json" selects json, ".efg" gambit, otherwise content detection; explicit formats ignore the extension',
-                    m.where(bi), '%s -> %s::from_reader (%s)' % (var, mod, why), breaks='--input-format / the extension selects another parser than documented')
-    if n < 8:
-        ctx.anchor_lost(rule, 'main: from_reader dispatch', 'found %d of 8' % n)
+                ctx.verdict(False, rule, key, text, m.where(0), '%s reaches %s, documented: %s' % ((stdin, fmt, ext), sorted(sinks), want),
+                            breaks='--input-format / the extension selects another parser than documented')
     af = ctx.fn('bin', 'auto::from_reader', rule)
     if af is not None:
         cs = [(bi, p) for bi, t, p in af.calls() if short(p) == 'from_str' and p.split('::')[0] in ('json', 'gambit')]
